@@ -124,6 +124,7 @@ func (it *Interp) ensureInit(pkg *ssa.Package) {
 		return
 	}
 	it.inited[pkg] = true
+	it.initOrder = append(it.initOrder, pkg)
 	// allocate all globals first
 	for _, m := range pkg.Members {
 		if g, ok := m.(*ssa.Global); ok {
@@ -157,19 +158,23 @@ func (it *Interp) ensureInit(pkg *ssa.Package) {
 			if r := recover(); r != nil {
 				switch e := r.(type) {
 				case unsupportedErr:
-					it.initIssues = append(it.initIssues, pkg.Pkg.Path()+": "+e.msg)
+					it.addInitIssue(pkg.Pkg.Path()+": "+e.msg)
 				case *goPanic:
-					it.initIssues = append(it.initIssues, pkg.Pkg.Path()+": panic in init: "+it.safePanicString(e))
+					it.addInitIssue(pkg.Pkg.Path()+": panic in init: "+it.safePanicString(e))
 				case string:
-					it.initIssues = append(it.initIssues, pkg.Pkg.Path()+": engine: "+e)
+					it.addInitIssue(pkg.Pkg.Path()+": engine: "+e)
 				case error:
-					it.initIssues = append(it.initIssues, pkg.Pkg.Path()+": engine: "+e.Error())
+					it.addInitIssue(pkg.Pkg.Path()+": engine: "+e.Error())
 				default:
 					panic(r)
 				}
 			}
 		}()
+		s0 := it.steps
 		it.callSSA(initFn, nil, nil)
+		if it.Verbose {
+			fmt.Fprintf(it.LogW, "init-done %s steps=%d\n", pkg.Pkg.Path(), it.steps-s0)
+		}
 	}()
 }
 
@@ -1446,4 +1451,13 @@ func (it *Interp) normIdx(idx Value, t types.Type) (Value, types.Type) {
 		return it.ts.Sext(tm, 64), types.Typ[types.Int]
 	}
 	return it.ts.Zext(tm, 64), types.Typ[types.Uint64]
+}
+
+func (it *Interp) addInitIssue(msg string) {
+	for _, m := range it.initIssues {
+		if m == msg {
+			return
+		}
+	}
+	it.initIssues = append(it.initIssues, msg)
 }
